@@ -284,6 +284,7 @@ def who_links(rep, A):
                  None if ok else '%s unlinks list nodes directly (%s) instead of going through unplan()'
                  % (name, callee_base(mod, unlink[0])))
         direct, fields = [], set()
+        fstores = []
         for i in f.all_insts():
             if i.op != 'store':
                 continue
@@ -296,8 +297,10 @@ def who_links(rep, A):
             if r.k == 'arg' and tyname(f.params[r.argno]['ty'].get('elem', '')) == A.th_struct and o is not None:
                 if o == A.off_start:
                     fields.add('_start')
+                    fstores.append((i, r))
                 elif o == A.off_interval:
                     fields.add('_interval')
+                    fstores.append((i, r))
                 elif A.off_lnk <= o < A.off_lnk + 16:
                     direct.append(i)
         rep.inst('R-WHOLINKS', name, 'no-direct-store-to-link-fields', not direct,
@@ -305,6 +308,14 @@ def who_links(rep, A):
                  None if not direct else 'stores into next/prev of a list node directly')
         allowed = set(writers_ok.get(f.name, ()))
         ok = fields <= allowed
+        if not ok and f is not A.plan:
+            # the setters written out in place (the manager is a friend of the timer): as good as calling them when every such
+            # store is followed, on every path, by plan(tim) of the same timer - the timer is unplanned and sorted in again
+            replans = [c for c in f.calls() if c.callee == A.plan.name and len(c.ops) >= 2]
+            ok = bool(fstores) and all(
+                any(trace_const(f, c.ops[1])[0].key() == r.key() and f.dominates(st_, c) and
+                    f.postdominates_block(c.block, st_.block) for c in replans)
+                for (st_, r) in fstores)
         rep.inst('R-WHOLINKS', name, 'deadline-fields-written-only-by-set_start/set_interval/shift', ok, where,
                  None if ok else '%s writes %s; a deadline may change only through set_start, set_interval and shift '
                  '(the re-arm rule relies on it)' % (name, sorted(fields - allowed)))
